@@ -267,11 +267,11 @@ func programs(r *vf.Run) []program {
 	}
 	// ----- (D) spec-shape fixtures (each found an uncompilable output once)
 	fixtures := map[string]string{
-		"shared_header_ref_two_names": `{"openapi":"3.0.3","info":{"title":"t","version":"1"},"paths":{"/a":{"get":{"operationId":"a","responses":{"200":{"description":"ok","headers":{"X-A":{"$ref":"#/components/headers/H"},"X-B":{"$ref":"#/components/headers/H"}}}}}}},"components":{"headers":{"H":{"schema":{"type":"string"}}}}}`,
-		"pattern_responses_share_schema": `{"openapi":"3.0.3","info":{"title":"t","version":"1"},"paths":{"/a":{"get":{"operationId":"a","responses":{"200":{"description":"ok"},"4XX":{"description":"c","content":{"application/json":{"schema":{"$ref":"#/components/schemas/E"}}}},"5XX":{"description":"s","content":{"application/json":{"schema":{"$ref":"#/components/schemas/E"}}}}}}}},"components":{"schemas":{"E":{"type":"object","properties":{"m":{"type":"string"}}}}}}`,
+		"shared_header_ref_two_names":      `{"openapi":"3.0.3","info":{"title":"t","version":"1"},"paths":{"/a":{"get":{"operationId":"a","responses":{"200":{"description":"ok","headers":{"X-A":{"$ref":"#/components/headers/H"},"X-B":{"$ref":"#/components/headers/H"}}}}}}},"components":{"headers":{"H":{"schema":{"type":"string"}}}}}`,
+		"pattern_responses_share_schema":   `{"openapi":"3.0.3","info":{"title":"t","version":"1"},"paths":{"/a":{"get":{"operationId":"a","responses":{"200":{"description":"ok"},"4XX":{"description":"c","content":{"application/json":{"schema":{"$ref":"#/components/schemas/E"}}}},"5XX":{"description":"s","content":{"application/json":{"schema":{"$ref":"#/components/schemas/E"}}}}}}}},"components":{"schemas":{"E":{"type":"object","properties":{"m":{"type":"string"}}}}}}`,
 		"pattern_and_default_share_schema": `{"openapi":"3.0.3","info":{"title":"t","version":"1"},"paths":{"/a":{"get":{"operationId":"a","responses":{"200":{"description":"ok"},"4XX":{"description":"c","content":{"application/json":{"schema":{"$ref":"#/components/schemas/E"}}}},"default":{"description":"s","content":{"application/json":{"schema":{"$ref":"#/components/schemas/E"}}}}}}}},"components":{"schemas":{"E":{"type":"object","properties":{"m":{"type":"string"}}}}}}`,
-		"global_security_with_webhooks": `{"openapi":"3.1.0","info":{"title":"t","version":"1"},"security":[{"K":[]}],"paths":{"/a":{"get":{"operationId":"a","responses":{"200":{"description":"ok"}}}}},"webhooks":{"evt":{"post":{"operationId":"hook","requestBody":{"content":{"application/json":{"schema":{"type":"object"}}}},"responses":{"200":{"description":"ok"}}}}},"components":{"securitySchemes":{"K":{"type":"apiKey","in":"header","name":"X-K"}}}}`,
-		"codes_share_schema": `{"openapi":"3.0.3","info":{"title":"t","version":"1"},"paths":{"/a":{"get":{"operationId":"a","responses":{"400":{"description":"c","content":{"application/json":{"schema":{"$ref":"#/components/schemas/E"}}}},"404":{"description":"s","content":{"application/json":{"schema":{"$ref":"#/components/schemas/E"}}}}}}}},"components":{"schemas":{"E":{"type":"object","properties":{"m":{"type":"string"}}}}}}`,
+		"global_security_with_webhooks":    `{"openapi":"3.1.0","info":{"title":"t","version":"1"},"security":[{"K":[]}],"paths":{"/a":{"get":{"operationId":"a","responses":{"200":{"description":"ok"}}}}},"webhooks":{"evt":{"post":{"operationId":"hook","requestBody":{"content":{"application/json":{"schema":{"type":"object"}}}},"responses":{"200":{"description":"ok"}}}}},"components":{"securitySchemes":{"K":{"type":"apiKey","in":"header","name":"X-K"}}}}`,
+		"codes_share_schema":               `{"openapi":"3.0.3","info":{"title":"t","version":"1"},"paths":{"/a":{"get":{"operationId":"a","responses":{"400":{"description":"c","content":{"application/json":{"schema":{"$ref":"#/components/schemas/E"}}}},"404":{"description":"s","content":{"application/json":{"schema":{"$ref":"#/components/schemas/E"}}}}}}}},"components":{"schemas":{"E":{"type":"object","properties":{"m":{"type":"string"}}}}}}`,
 	}
 	var fnames []string
 	for n := range fixtures {
